@@ -12,6 +12,7 @@ package c04
 import (
 	"fmt"
 	"math"
+	"os"
 	"sort"
 	"strings"
 	"testing"
@@ -64,15 +65,22 @@ var assumptions = []string{
 
 // ---------------------------------------------------------------- generator
 
-const (
-	// known defect classes, excluded by construction so that the search continues behind them
-	exclStuck            = true  // K1
-	exclRespecialise     = true  // K2
-	exclNestedLambda     = true  // K3
-	exclUnaryMinus       = true  // K4
-	exclNestedTypeChange = true  // K5
-	exclManyArgs         = true  // K6
+// Known defect classes are excluded by construction so that the search continues behind
+// them. C04_NOEXCL=K1,K3 (or "all") switches exclusions off - used only to validate a repair
+// of the corresponding defect, never by bin/check.
+var (
+	exclStuck            = !noExcl("K1")
+	exclRespecialise     = !noExcl("K2")
+	exclNestedLambda     = os.Getenv("C04_EXCL_K3") != "" // K3 is repaired in /repo (1226a42): not excluded, its witness is an ordinary replay case
+	exclUnaryMinus       = !noExcl("K4")
+	exclNestedTypeChange = !noExcl("K5")
+	exclManyArgs         = !noExcl("K6")
 )
+
+func noExcl(k string) bool {
+	v := os.Getenv("C04_NOEXCL")
+	return v == "all" || strings.Contains(","+v+",", ","+k+",")
+}
 
 func genWith(r *kit.Rec) func(t *rapid.T) Case {
 	return func(t *rapid.T) Case {
@@ -243,9 +251,10 @@ func (g *genCtx) targeted() (*Tree, map[string][]VT) {
 //
 //	K1 eval/binary-operator-stuck-after-failed-respecialisation
 //	K2 eval/stateful-restepped-on-respecialise
-//	K3 eval/nested-lambda-state-shared-across-groups
+//	K3 eval/nested-lambda-state-shared-across-groups        (repaired in /repo by 1226a42: no longer excluded)
 //	K4 eval/unary-minus-on-non-numeric
 //	K5 eval/nested-operator-type-change-not-respecialised
+//	K6 eval/type-panics-on-more-than-4-arguments
 
 func stepEnv(bind map[string]SV) func(string) VT {
 	return func(n string) VT {
@@ -923,6 +932,9 @@ func (a *oracleA) judge(g int, preds []refOutcome, o outcome, entry, x string) (
 		if p.e != nil && p.e.k == kUnspec {
 			unspec = p.e.why
 		}
+	}
+	if p := preds[0]; p.e != nil && p.e.k == kFault {
+		a.cc.Label("arithmetic/range fault on Eval (must be an error)")
 	}
 	if unspec != "" {
 		a.cc.Label("unspecified: " + unspec)
